@@ -90,7 +90,7 @@ def legal_moves(nodes, edges, fixed, black, white, max_indeg):
 
 
 @st.composite
-def hc_case(draw, max_cols=4):
+def hc_case(draw, max_cols=4, focus=None):
     ds = draw(gen.data_spec(min_cols=2, max_cols=max_cols, min_rows=5, max_rows=60, min_card=2, max_card=3, kinds=("int", "cat"), extra_states=False, dependent=True))
     cols = ds["columns"]
     ds["pass_state_names"] = False
@@ -138,6 +138,21 @@ def hc_case(draw, max_cols=4):
     allp = list(itertools.permutations(cols, 2))
     black = [p for p in allp if p not in used and draw(st.integers(0, 4)) == 0] if draw(st.booleans()) and not trap else None
     white = [p for p in allp if draw(st.integers(0, 2)) > 0] if draw(st.integers(0, 2)) == 0 and not trap else None
+    if focus == "tabu0" and not trap:
+        # long trajectories with the tabu list disabled: dense start graph, nothing forbidden, run to convergence
+        start_mode = "dag"
+        start = [p for p in pairs if draw(st.booleans())]
+        fixed, black, white = [], None, None
+        max_indeg = draw(st.sampled_from([None, 2, 3]))
+        if max_indeg is not None:
+            keep, indeg = [], {}
+            for e in start:
+                if indeg.get(e[1], 0) < max_indeg:
+                    keep.append(e)
+                    indeg[e[1]] = indeg.get(e[1], 0) + 1
+            start = keep
+        return {"data": ds, "scoring": draw(st.sampled_from(SCORINGS)), "start_mode": start_mode, "start": [list(e) for e in start], "fixed": [], "black": None,
+                "white": None, "max_indegree": max_indeg, "trap": False, "tabu_length": 0, "epsilon": draw(st.sampled_from([1e-8, 1e-4, 0.5])), "max_iter": 10**6}
     return {"data": ds, "scoring": draw(st.sampled_from(SCORINGS)), "start_mode": start_mode, "start": [list(e) for e in start],
             "fixed": [list(e) for e in fixed], "black": None if black is None else [list(e) for e in black],
             "white": None if white is None else [list(e) for e in white], "max_indegree": max_indeg, "trap": bool(trap),
@@ -414,6 +429,8 @@ def check_tree(case, out):
 
 
 SUBCHECKS = [
+    Sub("hill_climb_tabu0", check_hc, strategy=lambda tier: hc_case(5, focus="tabu0"), n={"quick": 40, "thorough": 400}, shards={"quick": 8, "thorough": 16},
+        doc="hill climbing with the tabu list disabled from dense start graphs, run to convergence: local optimality of the result"),
     Sub("hill_climb", check_hc, strategy=lambda tier: hc_case(4 if tier == "quick" else 5), n={"quick": 40, "thorough": 600},
         shards={"quick": 12, "thorough": 16}, doc="HillClimbSearch.estimate: acyclic, node set, fixed/black/white lists, in-degree, score >= start, no improving legal move when tabu is off"),
     Sub("exhaustive", check_ex, strategy=lambda tier: ex_case(), n={"quick": 10, "thorough": 100},
